@@ -10,7 +10,7 @@ import vrun
 from props import _nfamily
 from common import cerberus
 
-LEVEL = "proof"
+LEVEL = "translation_validation"
 COQ_FILES = ["theories/Model/Normalize.v"]
 FACT_GROUPS = ["F11", "F6", "F8"]
 ALLOWED_AXIOMS = []
